@@ -64,6 +64,8 @@ fn gen(rng: &mut Rng, _idx: u64, tier: Tier) -> Case {
     let n_ac = rng.range(2, 4) as usize;
     let addrs = gen::addresses(rng, n_ac);
     let mut acs: Vec<gen::Ac> = addrs.iter().map(|&a| gen::aircraft(rng, a)).collect();
+    // two aircraft may well use the same callsign (or squawk)
+    if acs.len() > 1 && rng.chance(0.3) { acs[1].callsign = acs[0].callsign.clone(); acs[1].sq = acs[0].sq; }
     let d = *rng.pick(&[5i64, 60, 600]);
     let mut args = vec![format!("--delete-after={}", d)];
     if rng.chance(0.4) { args.push("--use-update-method".into()); }
